@@ -70,7 +70,7 @@ def main(tier):
     chk = vcheck.Check("C16", "model_checking", tier)
     seed = vcheck.seed()
     common.model_step(chk, "C16", tier)
-    results = common.run_specs(specs(tier, seed), ["C16", "TSRV"])
+    results = common.run_specs(specs(tier, seed), ["C16", "TSRV", "TCLI"])
     common.judge(chk, results, "TraceMonRedelivery", "TraceMonRedelivery.cfg", "redelivery", sigfn=sig, key="C16")
     common.bind_tunnel(chk, results)
     n = 0
